@@ -428,6 +428,26 @@ func enumerate(tier string) []History {
 				}
 			}
 		}
+		// reduced reconnect space: a first tunnel (plaintext or TLS, one request), then a second CONNECT to another
+		// authority on the same connection carrying one host-less request (each spelling) and one origin-form request
+		for _, l := range []string{"plain", "shaped"} {
+			for _, in1 := range []string{"plain", "tls"} {
+				for _, in2 := range inners {
+					if in1 == "tls" && in2 == "plain" {
+						continue
+					}
+					for _, spell := range []string{"", "http11_nohdr", "http11_empty"} {
+						for _, f2 := range [][]string{{"nohost", "origin"}, {"origin", "nohost"}} {
+							p2 := ph(hostName+":8443", in2, f2)
+							p2.Spell = spell
+							add(History{Space: "reconnect", Listener: l, Hijack: "none", Conns: []Script{
+								{Phases: []Phase{ph(hostName+":443", in1, []string{"origin"}), p2}, TLS: "default", SNI: "same", Auth: "443"},
+							}})
+						}
+					}
+				}
+			}
+		}
 		extra(false, add)
 		return out
 	}
@@ -2835,7 +2855,7 @@ func main() {
 	if tier == "thorough" {
 		rep.Coverage["bounds"] = "core: N<=4 requests, 5 listeners, 2 tunnel contents (transparent: TLS only), ports {443,8443}, 4 target forms per request, 5 hijack variants at the last request (= every index 1..4); nested: 3 TLS listener layerings x outer profile {default, TLS1.2} x N<=3 x 5 hijack variants; config: N<=2 x 6 authority spellings x 2 SNI x 4 TLS profiles x 2 early-data modes (minus combinations that are core or impossible); pair: 2 connections x N<=2 each, all content combinations; reconnect: 1..2 plaintext requests then second CONNECT with TLS/plaintext and 1..2 requests"
 	} else {
-		rep.Coverage["bounds"] = "core: N<=2 requests, 5 listeners, 2 tunnel contents (transparent: TLS only), ports {443,8443}, 4 target forms per request, 5 hijack variants at the last request; nested: 3 TLS listener layerings x outer profile {default, TLS1.2} x N<=2 x 5 hijack variants; config (reduced): 3 authority spellings x {plain, shaped} x {TLS, plaintext} x form sequences of length 1..2 containing nohost; pair (reduced): one request per connection; plus reduced hostless, traffic, upfail, hsfail, variant, downstream spaces"
+		rep.Coverage["bounds"] = "core: N<=2 requests, 5 listeners, 2 tunnel contents (transparent: TLS only), ports {443,8443}, 4 target forms per request, 5 hijack variants at the last request; nested: 3 TLS listener layerings x outer profile {default, TLS1.2} x N<=2 x 5 hijack variants; config (reduced): 3 authority spellings x {plain, shaped} x {TLS, plaintext} x form sequences of length 1..2 containing nohost; pair (reduced): one request per connection; reconnect (reduced): first tunnel {plaintext, TLS} with one request, second CONNECT to another authority with {nohost (3 spellings), origin} in both orders; plus reduced hostless, traffic, upfail, hsfail, variant, downstream spaces"
 	}
 	rep.Finish()
 }
